@@ -95,241 +95,4 @@ fn native_sanity() {
 }
 
 #[cfg(kani)]
-mod proofs {
-    use super::*;
-    use rlib_fft::{Complex, FFT};
-
-    fn any_coef<const N: usize>() -> [i32; N] {
-        let a: [i32; N] = kani::any();
-        let mut i = 0;
-        while i < N {
-            kani::assume(a[i] >= 0 && a[i] < P as i32);
-            i += 1;
-        }
-        a
-    }
-    fn any_signed<const N: usize>() -> [i32; N] {
-        let a: [i32; N] = kani::any();
-        let mut i = 0;
-        while i < N {
-            kani::assume(a[i] >= -(P as i32) && a[i] < P as i32);
-            i += 1;
-        }
-        a
-    }
-    fn conv_signed(a: &[i32], b: &[i32], out: &mut [i64]) {
-        let mut i = 0;
-        while i < a.len() {
-            let mut j = 0;
-            while j < b.len() {
-                out[i + j] = (out[i + j] + ((a[i] as i64) * (b[j] as i64)).rem_euclid(P as i64)) % (P as i64);
-                j += 1;
-            }
-            i += 1;
-        }
-    }
-
-    /// multiply = convolution mod p, length |a|+|b|-1, for fully symbolic operands (transform sizes 2 and 4)
-    fn mul_small<const A: usize, const B: usize, const R: usize>() {
-        let a = any_coef::<A>();
-        let b = any_coef::<B>();
-        let mut f = FFT::<Fp>::new();
-        let r = f.multiply(&a, &b);
-        let mut e = [0i64; R];
-        conv_mod(&a, &b, &mut e);
-        assert!(r.len() == R, "result length |a|+|b|-1");
-        let mut i = 0;
-        while i < R {
-            assert!(r[i] == e[i], "multiply = convolution (exact arithmetic)");
-            i += 1;
-        }
-        kani::cover!(a[A - 1] == 6 && b[B - 1] == 6);
-        core::mem::forget(f);
-        core::mem::forget(r);
-    }
-    #[kani::proof]
-    #[kani::unwind(10)]
-    fn c04_mul_1x1() { mul_small::<1, 1, 1>(); }
-    #[kani::proof]
-    #[kani::unwind(10)]
-    fn c04_mul_1x2() { mul_small::<1, 2, 2>(); }
-    #[kani::proof]
-    #[kani::unwind(10)]
-    fn c04_mul_2x2() { mul_small::<2, 2, 3>(); }
-    #[kani::proof]
-    #[kani::unwind(10)]
-    fn c04_mul_3x2() { mul_small::<3, 2, 4>(); }
-    #[kani::proof]
-    #[kani::unwind(10)]
-    fn c04_mul_2x3() { mul_small::<2, 3, 4>(); }
-    #[kani::proof]
-    #[kani::unwind(10)]
-    fn c04_mul_4x1() { mul_small::<4, 1, 4>(); }
-
-    /// negative coefficients (reduced by from_i32)
-    #[kani::proof]
-    #[kani::unwind(10)]
-    fn c04_mul_signed_2x2() {
-        let a = any_signed::<2>();
-        let b = any_signed::<2>();
-        let mut f = FFT::<Fp>::new();
-        let r = f.multiply(&a, &b);
-        let mut e = [0i64; 3];
-        conv_signed(&a, &b, &mut e);
-        assert!(r.len() == 3);
-        let mut i = 0;
-        while i < 3 {
-            assert!(r[i] == e[i], "multiply with negative coefficients");
-            i += 1;
-        }
-        kani::cover!(a[0] < 0 && b[1] < 0);
-        core::mem::forget(f);
-        core::mem::forget(r);
-    }
-
-    /// empty inputs
-    #[kani::proof]
-    #[kani::unwind(10)]
-    fn c04_empty() {
-        let a = any_coef::<2>();
-        let mut f = FFT::<Fp>::new();
-        let e: [i32; 0] = [];
-        assert!(f.multiply(&a, &e).is_empty() && f.multiply(&e, &a).is_empty() && f.multiply(&e, &e).is_empty());
-        let mut dst = [5i64, 6];
-        f.multiply_into(&e, &a, &mut dst);
-        assert!(dst[0] == 5 && dst[1] == 6, "multiply_into with an empty operand leaves the destination unchanged");
-        core::mem::forget(f);
-    }
-
-    /// transform size 8: one operand symbolic, the other from an enumerated concrete set; history 2 -> 8 (into a symbolic
-    /// destination) -> 2 on ONE object, compared with fresh-object results (stride indexing into the grown tables)
-    fn hist8(b: [i32; 5]) {
-        let a = any_coef::<4>();
-        let a2 = any_coef::<1>();
-        let b2 = any_coef::<2>();
-        let mut f = FFT::<Fp>::new();
-        let r0 = f.multiply(&a2, &b2);
-        let mut e0 = [0i64; 2];
-        conv_mod(&a2, &b2, &mut e0);
-        assert!(r0.len() == 2 && r0[0] == e0[0] && r0[1] == e0[1], "size-2 call on a fresh object");
-        let mut dst = [0i64; 8];
-        let seed: i64 = kani::any();
-        kani::assume(seed >= -1000 && seed < 1000);
-        dst[3] = seed;
-        f.multiply_into(&a, &b, &mut dst);
-        let mut e = [0i64; 8];
-        conv_mod(&a, &b, &mut e);
-        let mut i = 0;
-        while i < 8 {
-            assert!(dst[i] == e[i] + if i == 3 { seed } else { 0 }, "multiply_into ADDS the convolution to the destination (size 8 after size 2)");
-            i += 1;
-        }
-        let r1 = f.multiply(&a2, &b2);
-        assert!(r1.len() == 2 && r1[0] == e0[0] && r1[1] == e0[1], "size-2 call after the object has grown to 8 = fresh result");
-        core::mem::forget(f);
-        core::mem::forget(r0);
-        core::mem::forget(r1);
-    }
-    #[kani::proof]
-    #[kani::unwind(10)]
-    fn c04_hist8_dense() { hist8([1, 0, 6, 3, 2]); }
-    #[kani::proof]
-    #[kani::unwind(10)]
-    fn c04_hist8_unit() { hist8([0, 0, 0, 0, 1]); }
-    #[kani::proof]
-    #[kani::unwind(10)]
-    fn c04_hist8_ones() { hist8([1, 1, 1, 1, 1]); }
-    #[kani::proof]
-    #[kani::unwind(10)]
-    fn c04_hist8_alt() { hist8([1, 6, 1, 6, 1]); }
-
-    /// shrinking history: 8 first, then 4 (3x2) fully symbolic on the same object
-    #[kani::proof]
-    #[kani::unwind(10)]
-    fn c04_hist_shrink() {
-        let mut f = FFT::<Fp>::new();
-        let big = f.multiply(&[1, 2, 3, 4], &[6, 5, 4, 3, 2]);
-        let mut eb = [0i64; 8];
-        conv_mod(&[1, 2, 3, 4], &[6, 5, 4, 3, 2], &mut eb);
-        let mut i = 0;
-        while i < 8 {
-            assert!(big[i] == eb[i]);
-            i += 1;
-        }
-        let a = any_coef::<3>();
-        let b = any_coef::<2>();
-        let r = f.multiply(&a, &b);
-        let mut e = [0i64; 4];
-        conv_mod(&a, &b, &mut e);
-        assert!(r.len() == 4);
-        let mut i = 0;
-        while i < 4 {
-            assert!(r[i] == e[i], "size-4 call after the object has grown to 8");
-            i += 1;
-        }
-        core::mem::forget(f);
-        core::mem::forget(big);
-        core::mem::forget(r);
-    }
-
-    /// forward transform, pointwise product, inverse transform = multiply
-    #[kani::proof]
-    #[kani::unwind(10)]
-    fn c04_fft_pointwise_inv() {
-        let a = any_coef::<2>();
-        let b = any_coef::<2>();
-        let mut f = FFT::<Fp>::new();
-        let fa = f.fft(&a, 4);
-        let fb = f.fft(&b, 4);
-        assert!(fa.len() == 4 && fb.len() == 4);
-        let mut prod = [Complex::<Fp>::new(Fp::plain(0), Fp::plain(0)); 4];
-        let mut i = 0;
-        while i < 4 {
-            prod[i] = fa[i] * fb[i];
-            i += 1;
-        }
-        let c = f.fft_inv(&prod);
-        let m = f.multiply(&a, &b);
-        assert!(c.len() == 4 && m.len() == 3);
-        let mut i = 0;
-        while i < 3 {
-            assert!(c[i] == m[i], "fft -> pointwise product -> fft_inv = multiply");
-            i += 1;
-        }
-        assert!(c[3] == 0);
-        core::mem::forget(f);
-        core::mem::forget(fa);
-        core::mem::forget(fb);
-        core::mem::forget(c);
-        core::mem::forget(m);
-    }
-
-    /// fft_into / fft_inv_into accumulate onto their destination
-    #[kani::proof]
-    #[kani::unwind(10)]
-    fn c04_into_accumulates() {
-        let a = any_coef::<2>();
-        let mut f = FFT::<Fp>::new();
-        let fa = f.fft(&a, 2);
-        let mut acc = [fa[0], fa[1]];
-        f.fft_into(&a, 2, &mut acc);
-        assert!(acc[0] == fa[0] + fa[0] && acc[1] == fa[1] + fa[1], "fft_into adds the transform to the destination");
-        let mut dst = [3i64, 4];
-        f.fft_inv_into(&[fa[0], fa[1]], &mut dst);
-        assert!(dst[0] == 3 + a[0] as i64 && dst[1] == 4 + a[1] as i64, "fft_inv_into adds the inverse transform to the destination");
-        core::mem::forget(f);
-        core::mem::forget(fa);
-    }
-
-    #[kani::proof]
-    #[kani::unwind(10)]
-    fn c04_twin_false() {
-        let a = any_coef::<2>();
-        let b = any_coef::<2>();
-        let mut f = FFT::<Fp>::new();
-        let r = f.multiply(&a, &b);
-        assert!(r[1] != 5 || a[0] == 0, "twin: deliberately false");
-        core::mem::forget(f);
-        core::mem::forget(r);
-    }
-}
+mod proofs;
